@@ -9,6 +9,11 @@ import (
 )
 
 func (e *kvElection) watchLoop(ctx context.Context) {
+	// updates stays nil when the watch cannot be set up and becomes nil when
+	// it ends: the loop then carries on with the periodic check alone, so a
+	// follower is never left without any means of noticing a vacancy.
+	var updates <-chan Entry
+
 	watcher, err := e.kv.Watch(e.key)
 	if err != nil {
 		log := e.getLogger()
@@ -18,16 +23,17 @@ func (e *kvElection) watchLoop(ctx context.Context) {
 				zap.String("key", e.key),
 			)...,
 		)
-		return
-	}
-	defer watcher.Stop()
+	} else {
+		defer watcher.Stop()
+		updates = watcher.Updates()
 
-	log := e.getLogger()
-	log.Debug("watch_started",
-		append(e.logWithContext(ctx),
-			zap.String("key", e.key),
-		)...,
-	)
+		log := e.getLogger()
+		log.Debug("watch_started",
+			append(e.logWithContext(ctx),
+				zap.String("key", e.key),
+			)...,
+		)
+	}
 
 	checkTicker := time.NewTicker(500 * time.Millisecond)
 	defer checkTicker.Stop()
@@ -36,22 +42,19 @@ func (e *kvElection) watchLoop(ctx context.Context) {
 		select {
 		case <-ctx.Done():
 			return
-		case entry, ok := <-watcher.Updates():
+		case entry, ok := <-updates:
 			if !ok {
 				log := e.getLogger()
 				log.Debug("watch_closed",
 					e.logWithContext(ctx)...,
 				)
+				updates = nil
 				// When watcher closes, check if key still exists
 				// If not, trigger re-election
 				if !e.IsLeader() {
-					e.wg.Add(1)
-					go func() {
-						defer e.wg.Done()
-						e.checkKeyAndReelect(ctx)
-					}()
+					e.checkKeyAndReelect(ctx)
 				}
-				return
+				continue
 			}
 			e.handleWatchEvent(entry)
 		case <-checkTicker.C:
